@@ -33,16 +33,22 @@ ASSUMPTIONS = ["diamond inheritance of one component and redeclaration of an inh
 BLOCKING = {"F15", "RE"}          # open findings: C07-F1, C07-F2
 
 
-def norm(m):
-    """Canonical comparison form of a flat model (either side)."""
+def norm(m, view="C07"):
+    """Canonical comparison form of a flat model (either side), restricted to what the property
+    observes.  C07: variables in order with type / prefixes / dimensions, and the instance
+    equations in order.  C08: variables in order with attributes / value, and the binding
+    equations (left side a symbol) in order."""
     if not m.get("ok"):
         return {"ok": False}
     vs = []
     for v in m["vars"]:
-        a = {k: e for k, e in v["attrs"].items() if not (k == "fixed" and e == ["bool", False])}
-        vs.append(dict(name=v["name"], type=v["type"], prefixes=list(v["prefixes"]), dims=list(v["dims"]),
-                       attrs=a, value=v["value"]))
-    return {"ok": True, "vars": vs, "eqs": [list(e) for e in m["eqs"]]}
+        if view == "C07":
+            vs.append(dict(name=v["name"], type=v["type"], prefixes=list(v["prefixes"]), dims=list(v["dims"])))
+        else:
+            a = {k: e for k, e in v["attrs"].items() if not (k == "fixed" and e == ["bool", False])}
+            vs.append(dict(name=v["name"], attrs=a, value=v["value"]))
+    eqs = [list(e) for e in m["eqs"] if (e[0][0] == "sym") == (view == "C08")]
+    return {"ok": True, "vars": vs, "eqs": eqs}
 
 
 def nontrivial(lib, target):
